@@ -22,7 +22,9 @@ def _known_patterns():
     except OSError:
         pass
     return [(2, 2, 2, 3, 2, 2), (2, 2, 2, 5, 2, 2)]
-KNOWN_PATTERNS = _known_patterns()
+KNOWN_PATTERNS = _known_patterns()     # as of import time; the generators call known_patterns() (after this run's translation)
+def known_patterns():
+    return _known_patterns()
 
 # ------------------------------------------------------------------------------------------------
 def gen_knots(rng, order, extra, style, scale=1.0, offset=0.0):
@@ -83,16 +85,16 @@ def gen_orders(rng, ndim, pattern):
     if pattern == "c3":
         return [3] * ndim
     if pattern == "known":
-        return list(rng.choice(KNOWN_PATTERNS))
+        return list(rng.choice(known_patterns()))
     # near misses of the dispatch guards (the case splits of C03_dispatch_sound): a known pattern extended by further
     # dimensions, cut short, or with one entry changed; a constant order with one deviating dimension
     if pattern == "known_ext":
-        return list(rng.choice(KNOWN_PATTERNS)) + [rng.rint(0, 3) for _ in range(rng.rint(1, 3))]
+        return list(rng.choice(known_patterns())) + [rng.rint(0, 3) for _ in range(rng.rint(1, 3))]
     if pattern == "known_cut":
-        kp = list(rng.choice(KNOWN_PATTERNS))
+        kp = list(rng.choice(known_patterns()))
         return kp[:rng.rint(1, len(kp) - 1)]
     if pattern == "known_perturb":
-        kp = list(rng.choice(KNOWN_PATTERNS))
+        kp = list(rng.choice(known_patterns()))
         i = rng.below(len(kp))
         kp[i] = max(0, kp[i] + rng.choice([-1, 1]))
         return kp
